@@ -5,8 +5,8 @@
    thread_count, shutting_down, whether the pool is still in `pools`; PoolRecords:
    queue, available_workers, shutting_down) + one program counter per thread.
    A step is one critical section (lock .. unlock / wait / return) executed
-   atomically; the only nested section (ThreadGroup::shut_down holding the group
-   lock while it locks the pool) is two steps with an explicit [glock].
+   atomically; the nested sections (ThreadGroup::shut_down and ThreadPool::shut_down
+   hold the group lock while they lock the pool) are two steps with an explicit [glock].
    Condition variables are wait sets *derived from the pcs*: a thread is in the
    wait set of task_wakeup iff its pc is [WWait], of available_wakeup iff [SWait],
    of shutdown_wakeup iff [RWait]/[AwWait].  notify_one wakes ANY waiter (the
@@ -53,7 +53,7 @@ Record state := mkState {
   tcount : nat;            (* GroupRecords.thread_count *)
   gsd : bool;              (* GroupRecords.shutting_down *)
   reg : bool;              (* the pool is still in GroupRecords.pools *)
-  glock : bool;            (* group mutex held across the nested pool shutdown *)
+  glock : bool;            (* group mutex held across a nested pool shutdown (a thread is at GHold/QMid) *)
   queue : list nat;        (* PoolRecords.queue (task ids) *)
   avail : nat;             (* PoolRecords.available_workers *)
   psd : bool;              (* PoolRecords.shutting_down *)
@@ -321,14 +321,16 @@ Definition step (fx : bool) (s : state) (l : label) : option state :=
   | LPsd1 i =>
     if glock s then None else
     match nth_error (thr s) i with
-    | Some QIdle => if reg s then Some (set_pc i QMid (with_reg false s)) else None
+    | Some QIdle => Some (set_pc i QMid (with_glock true (with_reg false s)))
+      (* removes the pool if it is still registered; keeps the group lock for LPsd2 *)
     | _ => None
     end
   | LPsd2 i =>
     match nth_error (thr s) i with
     | Some QMid =>
       Some (set_pc i QDone
-             (with_thr (notify_all on_avail (notify_all on_task (thr s))) (with_psd true s)))
+             (with_glock false
+               (with_thr (notify_all on_avail (notify_all on_task (thr s))) (with_psd true s))))
     | _ => None
     end
   | LAwait i o =>
